@@ -251,3 +251,89 @@ def generate(req):
         c.execute("pragma incremental_vacuum")
     c.close()
     return {"gen": meta}
+
+
+def decode_lengths(ps, exhaustive):
+    xt, xi, m = thresholds(ps)
+    u = ps
+    if exhaustive:
+        return list(range(0, 3 * ps + 1))
+    s = set(range(0, 20))
+    for base in (xt, xi, m, ps, u - 4, 2 * (u - 4), 3 * (u - 4)):
+        for d in range(-8, 9):
+            s.add(base + d)
+    for n in (1, 2, 3):
+        for x in (xt, xi):
+            for d in range(-4, 5):
+                s.add(x + n * (u - 4) + d)      # K crosses X
+        for d in range(-4, 5):
+            s.add(m + n * (u - 4) + d)          # K wraps to M
+    return sorted(v for v in s if v >= 0)
+
+
+def generate_decode(req):
+    """Database for C14: payload lengths around / across every local-payload
+    threshold, all serial types at their boundaries, varint lengths 1..9."""
+    path = req["path"]
+    prof = req["profile"]
+    seed = int(req["seed"])
+    for p in (path, path + "-journal"):
+        if os.path.exists(p):
+            os.unlink(p)
+    r = random.Random(seed)
+    ps = int(prof["page_size"])
+    c = sqlite3.connect(path, isolation_level=None)
+    c.execute("pragma page_size=%d" % ps)
+    c.execute("begin")
+    lens = decode_lengths(ps, bool(prof.get("exhaustive")))
+    # record overhead differs per table, so blob lengths sweep payload lengths
+    c.execute("create table d_len(id INTEGER PRIMARY KEY, p)")
+    c.execute("create table d_wr(k INTEGER PRIMARY KEY, p) WITHOUT ROWID")
+    c.execute("create table d_ix(id INTEGER PRIMARY KEY, p)")
+    c.execute("create index ix_d_ix on d_ix(p)")
+
+    def body(n, i):
+        kind = i % 3
+        if kind == 0:
+            return bytes((i * 7 + j) & 0xff for j in range(min(n, 32))) + b"\xa5" * max(0, n - 32)
+        if kind == 1:
+            return ("%06d" % i)[:n] + "t" * max(0, n - 6)
+        return bytes([i & 0xff]) * n
+    rows = [(i + 1, body(n, i)) for i, n in enumerate(lens)]
+    c.executemany("insert into d_len values(?,?)", rows)
+    c.executemany("insert into d_wr values(?,?)", rows)
+    # index entries: make the leading bytes distinct so the index order is interesting
+    c.executemany("insert into d_ix values(?,?)", rows)
+    extra = prof.get("huge", [])
+    for j, n in enumerate(extra):
+        c.execute("insert into d_len values(?,?)", (10_000_000 + j, b"\x11" * int(n)))
+    # integers: every serial width boundary, as values and as rowids
+    c.execute("create table d_ints(id INTEGER PRIMARY KEY, v)")
+    vals = set([0, 1, -1, 2])
+    for b in (7, 8, 15, 16, 23, 24, 31, 32, 47, 48, 55, 56, 62, 63):
+        p2 = 1 << b
+        for v in (p2 - 2, p2 - 1, p2, p2 + 1, -p2 - 1, -p2, -p2 + 1, -p2 + 2):
+            if -(1 << 63) <= v < (1 << 63):
+                vals.add(v)
+    for b in (7, 14, 21, 28, 35, 42, 49, 56, 63):  # varint length boundaries
+        p2 = 1 << b
+        for v in (p2 - 1, p2, -p2):
+            if -(1 << 63) <= v < (1 << 63):
+                vals.add(v)
+    vals = sorted(vals)
+    c.executemany("insert into d_ints values(?,?)", [(v, vals[(i * 7) % len(vals)]) for i, v in enumerate(vals)])
+    c.execute("create index ix_d_ints on d_ints(v)")
+    c.execute("create table d_floats(id INTEGER PRIMARY KEY, f, g REAL)")
+    bits = lambda h: struct.unpack(">d", struct.pack(">Q", h))[0]
+    fl = floats_grid() + [bits(r.getrandbits(64)) for _ in range(200)]
+    fl = [f for f in fl if f == f]  # NaN is stored as NULL
+    c.executemany("insert into d_floats values(?,?,?)", [(i, f, f) for i, f in enumerate(fl)])
+    ncol = int(prof.get("wide_cols", 200))
+    c.execute("create table d_wide(%s)" % ",".join("c%d" % i for i in range(ncol)))
+    g = G(seed, prof)
+    for j in range(6):
+        c.execute("insert into d_wide values(%s)" % ",".join("?" * ncol), [g.any_value() for _ in range(ncol)])
+    c.execute("insert into d_wide values(%s)" % ",".join("?" * ncol), ["w" * 300 if i % 50 == 0 else None for i in range(ncol)])
+    c.execute("commit")
+    c.close()
+    return {"gen": {"indexes": {}, "lengths": len(lens)}}
